@@ -214,7 +214,7 @@ impl<'s> BitReaderReversed<'s> {
             r.0 <= low_mask(n1), r.1 <= low_mask(n2), r.2 <= low_mask(n3),
 {
         let sum = n1 + n2 + n3;
-        if sum <= 64 {
+        if sum <= 56 {
             self.refill();
 
             let triple = self.peek_bits_triple(sum, n1, n2, n3);
